@@ -152,6 +152,17 @@ def make(rng, entry, charset='E', nfaults=None, multi=None, alphabet=V.PLAIN, fa
             s_ = rng.choice(sts)
             s_['vals'][0] = '834' if s_['vals'][0] != '834' else '835'
             tfaults.append((-1, 'st01_foreign'))
+    if trailer_faults and rng.random() < 0.05:
+        # an interchange acknowledgement segment (located by the control map, outside any set) with an element in error
+        ges = [k for k, s_ in enumerate(doc) if s_['id'] == 'GE' and k + 1 < len(doc) and doc[k + 1]['id'] == 'IEA']
+        if ges:
+            k = rng.choice(ges)
+            doc.insert(k + 1, {'id': 'TA1', 'vals': ['000000001', '040102', '1230', rng.choice(['Q', 'A']), '000'], 'uid': -1})
+            for f in applied:
+                if f['line'] >= k + 1:
+                    f['line'] += 1
+            tfaults = [(j + 1 if j >= k + 1 else j, n) for j, n in tfaults]
+            tfaults.append((k + 1, 'ta1_inserted'))
     if trailer_faults and rng.random() < 0.12:
         # structural damage between the envelope segments: a stray segment outside any set, or a trailer that never comes
         kind = rng.choice(['junk_gap', 'junk_gap', 'drop_se', 'drop_ge', 'drop_st'])
